@@ -518,6 +518,65 @@ theorem rhel_scan_reports (r : Rec) (v : Vuln) (x : Repo)
   rw [hvf] at hg
   simp [reported, hfil, hg, hvf]
 
+/-! ## several platforms in one definition, several records of one package -/
+
+/-- Oracle: a definition that lists several platforms yields one advisory per
+    KNOWN platform, each with that platform's own Distribution: every named
+    release is reached, and no other. -/
+theorem oracle_definition_reaches_every_platform (platforms : List Bytes) :
+    (∀ p ∈ platforms, ∀ d, oraclePlatformDist p = some d → d ∈ oracleDefinitionDists platforms) ∧
+    (∀ d ∈ oracleDefinitionDists platforms, ∃ p ∈ platforms, oraclePlatformDist p = some d) := by
+  constructor
+  · intro p hp d hd
+    exact List.mem_filterMap.2 ⟨p, hp, hd⟩
+  · intro d hd
+    obtain ⟨p, hp, hpd⟩ := List.mem_filterMap.1 hd
+    exact ⟨p, hp, hpd⟩
+
+/-- A package indexed under several repositories / environments (one
+    IndexRecord each): if ANY record passes the Filter, joins the advisory and
+    is vulnerable, the advisory is reported — whichever position that record
+    has — provided no record makes the Filter or the query builder panic. -/
+theorem several_records_any_reports (m : MatcherT) (opt : Bool) (rs : List (Rec × Bool × Bool)) (v : Vuln)
+    (hnp : ∀ x ∈ rs, m.filter.eval x.1 ≠ none)
+    (hq : ∀ x ∈ rs, getQuery (if opt then m.query ++ m.queryOpt else m.query) m.versionFilter x.2.1 x.1 v ≠ .panic)
+    (x : Rec × Bool × Bool) (hx : x ∈ rs) (hf : m.filter.eval x.1 = some true)
+    (hj : getQuery (if opt then m.query ++ m.queryOpt else m.query) m.versionFilter x.2.1 x.1 v = .ok true)
+    (hv : x.2.2 = true) :
+    reportedMulti m opt rs v = .reported true := by
+  unfold reportedMulti
+  have h1 : (rs.any fun y => m.filter.eval y.1 == none) = false := by
+    rw [List.any_eq_false]
+    intro y hy
+    cases h : m.filter.eval y.1 with
+    | none => exact absurd h (hnp y hy)
+    | some b => simp
+  have hxi : x ∈ rs.filter fun y => m.filter.eval y.1 == some true := by
+    rw [List.mem_filter]; exact ⟨hx, by simp [hf]⟩
+  have h2 : (rs.filter fun y => m.filter.eval y.1 == some true).isEmpty = false := by
+    cases h : rs.filter fun y => m.filter.eval y.1 == some true with
+    | nil => rw [h] at hxi; cases hxi
+    | cons a as => rfl
+  simp only [h1, Bool.false_eq_true, if_false, h2]
+  have h3 : ((rs.filter fun y => m.filter.eval y.1 == some true).map fun y =>
+      getQuery (if opt then m.query ++ m.queryOpt else m.query) m.versionFilter y.2.1 y.1 v).any (· == .panic) = false := by
+    rw [List.any_eq_false]
+    intro q hqm
+    obtain ⟨y, hy, rfl⟩ := List.mem_map.1 hqm
+    have hne := hq y (List.mem_filter.1 hy).1
+    cases h : getQuery (if opt then m.query ++ m.queryOpt else m.query) m.versionFilter y.2.1 y.1 v with
+    | panic => exact absurd h hne
+    | err => decide
+    | ok t => cases t <;> decide
+  have h4 : ((rs.filter fun y => m.filter.eval y.1 == some true).map fun y =>
+      getQuery (if opt then m.query ++ m.queryOpt else m.query) m.versionFilter y.2.1 y.1 v).any (· == .ok true) = true := by
+    rw [List.any_eq_true]
+    exact ⟨_, List.mem_map.2 ⟨x, hxi, rfl⟩, by rw [hj]; decide⟩
+  have h5 : ((rs.filter fun y => m.filter.eval y.1 == some true).any fun y => y.2.2) = true := by
+    rw [List.any_eq_true]; exact ⟨x, hxi, hv⟩
+  simp only [h3, h4, h5, Bool.false_eq_true, if_false, Bool.not_true]
+  split <;> rfl
+
 /-! ## structure of the sources the join relies on -/
 
 /-- The Debian and Ubuntu distribution scanners construct their result with
